@@ -171,11 +171,24 @@ func workerMain(rc *runCtx) {
 			}
 		}
 		var st *ExploreStats
-		if scs[idx].Seq != nil {
-			st = ExploreSeq(scs[idx].Seq, time.UnixMilli(dl))
-		} else {
-			st = ExploreAuto(scs[idx], ExploreOpts{Deadline: time.UnixMilli(dl), MaxStates: maxStates, FallbackBound: fb})
-		}
+		func() {
+			defer func() {
+				// a scenario that cannot be set up on this tree (its table shape cannot be produced, ...) is an
+				// infrastructure error of that scenario only: the worker goes on with the next one
+				if r := recover(); r != nil {
+					msg := fmt.Sprint(r)
+					if !strings.HasPrefix(msg, "INFRASTRUCTURE:") || sched.Active() {
+						panic(r)
+					}
+					st = &ExploreStats{Scenario: scs[idx].Name, Infra: strings.TrimPrefix(msg, "INFRASTRUCTURE: "), BoundDone: -1, CapHit: "not explored"}
+				}
+			}()
+			if scs[idx].Seq != nil {
+				st = ExploreSeq(scs[idx].Seq, time.UnixMilli(dl))
+			} else {
+				st = ExploreAuto(scs[idx], ExploreOpts{Deadline: time.UnixMilli(dl), MaxStates: maxStates, FallbackBound: fb})
+			}
+		}()
 		b, _ := json.Marshal(st)
 		fmt.Fprintf(out, "%d %s\n", idx, b)
 		out.Flush()
